@@ -12,6 +12,7 @@ import (
 	"io"
 	"net"
 	"sync"
+	"sync/atomic"
 	"time"
 )
 
@@ -23,11 +24,13 @@ var (
 type rec struct {
 	data []byte
 	orig int // index of the original record this one was derived from (-1: none)
+	at   time.Time // fake time at which it was queued
 	off  int // bytes of this record already released
 }
 
 type link struct {
-	name string
+	name    string
+	reverse *link // the opposite direction of the same pipe
 	mu   sync.Mutex
 	cond *sync.Cond
 
@@ -59,6 +62,7 @@ type link struct {
 	brokenPending bool
 	broken        bool
 
+	maxWait      time.Duration // longest time any released byte had spent in the queue
 	readerParked bool
 	writerParked bool
 	writes       int
@@ -95,7 +99,7 @@ func (l *link) Write(p []byte) (int, error) {
 	l.origStamp = append(l.origStamp, [2]int{l.curLo, l.curHi})
 	l.origStream = append(l.origStream, d...)
 	l.origTotal += len(d)
-	l.q = append(l.q, &rec{data: append([]byte(nil), d...), orig: len(l.origRecs) - 1})
+	l.q = append(l.q, &rec{data: append([]byte(nil), d...), orig: len(l.origRecs) - 1, at: time.Now()})
 	l.qbytes += len(d)
 	l.qvis += len(d)
 	l.writes++
@@ -150,6 +154,11 @@ func (l *link) release(k int) int {
 			n = k
 		}
 		chunk := r.data[r.off : r.off+n]
+		if !r.at.IsZero() {
+			if age := time.Since(r.at); age > l.maxWait {
+				l.maxWait = age
+			}
+		}
 		for i, b := range chunk {
 			pos := l.delivered + i
 			if l.divergeAt < 0 && (pos >= len(l.origStream) || l.origStream[pos] != b) {
@@ -168,6 +177,22 @@ func (l *link) release(k int) int {
 	}
 	l.cond.Broadcast()
 	return moved
+}
+
+// worstWait: the longest any byte has waited in this direction, including
+// what is still queued.
+func (l *link) worstWait() time.Duration {
+	l.mu.Lock()
+	defer l.mu.Unlock()
+	wmax := l.maxWait
+	for _, r := range l.q {
+		if !r.at.IsZero() {
+			if age := time.Since(r.at); age > wmax {
+				wmax = age
+			}
+		}
+	}
+	return wmax
 }
 
 // syncSpace lets parked writers see the space freed since the last call. Kept
@@ -307,12 +332,14 @@ type pipeEnd struct {
 	in   *link // we read from
 	out  *link // we write to
 	once sync.Once
+	shut atomic.Bool // Close was called
 }
 
 func (e *pipeEnd) Read(p []byte) (int, error)  { return e.in.Read(p) }
 func (e *pipeEnd) Write(p []byte) (int, error) { return e.out.Write(p) }
 func (e *pipeEnd) Close() error {
 	e.once.Do(func() {
+		e.shut.Store(true)
 		e.out.closeWriter()
 		e.in.closeReader()
 	})
@@ -328,6 +355,7 @@ func (e *pipeEnd) SetWriteDeadline(t time.Time) error { return nil }
 func newPipe(capAB, capBA int) (a, b *pipeEnd, ab, ba *link) {
 	ab = newLink("a>b", capAB)
 	ba = newLink("b>a", capBA)
+	ab.reverse, ba.reverse = ba, ab
 	a = &pipeEnd{name: "a", in: ba, out: ab}
 	b = &pipeEnd{name: "b", in: ab, out: ba}
 	return
